@@ -40,6 +40,47 @@ def run(ctx):
     ctx.rule("C16.R8", "K3/K8", "the Paste server runner keeps the order of authority: the defaults it derives from the Paste ini and the [server:main] options (framework settings) are applied before the "
              "gunicorn configuration file is loaded")
     r8(ctx)
+    ctx.rule("C16.R10", "K3", "no setting is consulted through one source only: a hook that reads a setting off the parsed command line also consults the merged configuration for it")
+    one_source_settings(ctx, "C16.R10")
+
+
+def one_source_settings(ctx, rid):
+    """The parsed command line is *one* source.  An application hook that takes a decision from `opts.<setting>` -- the
+    namespace `load_config` hands to `init()` before the configuration file and GUNICORN_CMD_ARGS are merged -- decides from
+    the command line alone: the same setting given by another source is validated, stored, printed by --print-config and then
+    not honoured.  Rule (structural): every `<namespace>.<setting>` read in the application classes is matched by a read of
+    `self.cfg.<setting>` in that class's `load_config` (which runs after the merge).  Exempt: `config` (the location of the
+    configuration file is what the merge starts from; its precedence is C16.R3) and `args` (positional arguments)."""
+    repo = ctx.repo
+    names_ = set()
+    for c in repo.module("gunicorn.config").tree.body:
+        if isinstance(c, ast.ClassDef):
+            for st in c.body:
+                if isinstance(st, ast.Assign) and len(st.targets) == 1 and isinstance(st.targets[0], ast.Name) and st.targets[0].id == "name" and isinstance(const(st.value, NO), str):
+                    names_.add(const(st.value, NO))
+    ctx.floor(rid, "settings known", len(names_), 50)
+    n = 0
+    for mn in ("gunicorn.app.base", "gunicorn.app.wsgiapp", "gunicorn.app.pasterapp"):
+        if mn not in repo.modules:
+            continue
+        for f in repo.module(mn).all_funcs:
+            if f.cls is None or f.name != "init" or len(f.params) < 3:
+                continue
+            ns = f.params[2]
+            for x in walk_own(f.node):
+                if isinstance(x, ast.Attribute) and isinstance(x.value, ast.Name) and x.value.id == ns and x.attr in names_ and x.attr not in ("config", "args"):
+                    n += 1
+                    f = ctx.fn(f)
+                    lc = None
+                    for cq in repo.mro(f.cls.qualname):
+                        if repo.has_func(cq + ".load_config") and cq == f.cls.qualname:
+                            lc = ctx.fn(repo.func(cq + ".load_config"))
+                    merged = lc is not None and any(isinstance(y, ast.Attribute) and y.attr == x.attr and norm(y.value) in ("self.cfg", "cfg") for y in walk_own(lc.node))
+                    ctx.check(rid, merged, key(f, "command-line-only|" + x.attr), site(f, x),
+                              "`%s.%s` is read off the parsed command line in %s, before the configuration file and GUNICORN_CMD_ARGS are merged, and %s.load_config never looks at `self.cfg.%s` afterwards: "
+                              "the setting `%s` given in the configuration file or in GUNICORN_CMD_ARGS is accepted, stored and then not honoured" % (ns, x.attr, f.short, f.cls.name, x.attr, x.attr),
+                              "the merged value is consulted too")
+    ctx.count("settings read off the command-line namespace by application hooks", n)
 
 
 _PURE_BUILTINS = {"isinstance", "int", "str", "bool", "len", "float", "ValueError", "TypeError", "repr", "type", "tuple", "list", "set", "frozenset", "any", "all", "min", "max", "abs"}
